@@ -4,6 +4,7 @@ import ParryModel.C15.Model
 import ParryModel.C15.Cyclic
 import ParryModel.C15.Theorems2
 import ParryModel.C15.Theorems3
+import ParryModel.C15.Theorems4
 /-!
 # C15 property theorems (2-D predicates), for every linearly ordered field.
 
@@ -33,6 +34,12 @@ theorem orientation2d_spec (a b c : V2 K) (eps : K) (he : 0 ≤ eps) :
     rw [abs_le]; intro h; linarith [h.1]
   · refine ⟨iff_of_false (by simp) h1, iff_of_false (by simp) h2, iff_of_true rfl ?_⟩
     rw [abs_le]; push Not at h1 h2; exact ⟨h2, h1⟩
+
+/-- the method `Triangle::orientation` (`dim2`) computes what `Triangle::orientation2d` computes (two copies of one body
+in the source; both are run against the model), hence `orientation2d_spec` holds for it -/
+theorem triangle_orientation_eq (a b c : V2 K) (eps : K) :
+    letI := fieldNum K sq
+    triOrientation a b c eps = orientation2d a b c eps := rfl
 
 /-! ## segments_intersection2d, non-parallel branch -/
 
@@ -447,6 +454,87 @@ theorem is_point_in_triangle_iff (p v1 v2 v3 : V2 K) (hS : area2 v1 v2 v3 ≠ 0)
 
 /-- non-vacuity: the unit right triangle is non-degenerate -/
 example : area2 (⟨0, 0⟩ : V2 ℚ) ⟨1, 0⟩ ⟨0, 1⟩ ≠ 0 := by unfold area2; norm_num
+
+/-! ## `Triangle::contains_point` (2-D) -/
+
+private theorem signum_eq (x : K) :
+    letI := fieldNum K sq
+    signum x = if x < 0 then -1 else 1 := by
+  unfold signum
+  by_cases h1 : x < 0
+  · simp [h1]
+  · by_cases h2 : 0 < x
+    · simp [h1, h2]
+    · have : x = 0 := le_antisymm (not_lt.mp h2) (not_lt.mp h1)
+      subst this; simp
+
+/-- **`Triangle::contains_point` (2-D), exact arithmetic, every input**: the three `signum` products are non-negative
+exactly when the three edge cross products `area2 a b p`, `area2 b c p`, `area2 c a p` are **all `≥ 0`** or **all `< 0`**
+(`signum(0) = +1`: a zero counts as positive).  Consequences: `tri_contains_point_ccw` (closed triangle) and
+`tri_contains_point_cw` (open triangle — boundary points of a clockwise triangle are *not* contained). -/
+theorem tri_contains_point_iff (a b c p : V2 K) :
+    letI := fieldNum K sq
+    triContainsPoint a b c p = true ↔
+      (0 ≤ area2 a b p ∧ 0 ≤ area2 b c p ∧ 0 ≤ area2 c a p) ∨ (area2 a b p < 0 ∧ area2 b c p < 0 ∧ area2 c a p < 0) := by
+  have e1 : @V2.perp K (fieldNum K sq) (@V2.sub K (fieldNum K sq) b a) (@V2.sub K (fieldNum K sq) p a) = area2 a b p := rfl
+  have e2 : @V2.perp K (fieldNum K sq) (@V2.sub K (fieldNum K sq) c b) (@V2.sub K (fieldNum K sq) p b) = area2 b c p := rfl
+  have e3 : @V2.perp K (fieldNum K sq) (@V2.sub K (fieldNum K sq) a c) (@V2.sub K (fieldNum K sq) p c) = area2 c a p := rfl
+  unfold triContainsPoint
+  simp only [e1, e2, e3, signum_eq, Bool.and_eq_true, decide_eq_true_eq]
+  by_cases h1 : area2 a b p < 0 <;> by_cases h2 : area2 b c p < 0 <;> by_cases h3 : area2 c a p < 0 <;>
+    simp only [h1, h2, h3, if_true, if_false] <;> norm_num <;> grind
+
+/-- counter-clockwise triangle: `contains_point` is membership in the **closed** triangle -/
+theorem tri_contains_point_ccw (a b c p : V2 K) (hS : 0 < area2 a b c) :
+    letI := fieldNum K sq
+    triContainsPoint a b c p = true ↔ (Triangle2.mk a b c).Mem p := by
+  rw [tri_contains_point_iff]
+  have hsum : area2 a b p + area2 b c p + area2 c a p = area2 a b c := by simp only [area2]; ring
+  have hM := (is_point_in_triangle_iff sq p a b c (ne_of_gt hS)).1
+  rw [inTri_eval] at hM
+  have r1 : area2 p a b = area2 a b p := by simp only [area2]; ring
+  have r2 : area2 p b c = area2 b c p := by simp only [area2]; ring
+  have r3 : area2 p c a = area2 c a p := by simp only [area2]; ring
+  rw [r1, r2, r3] at hM
+  have hnz : ¬ (area2 a b p = 0 ∧ area2 b c p = 0 ∧ area2 c a p = 0) := fun h => by
+    rw [h.1, h.2.1, h.2.2] at hsum; linarith
+  rw [if_neg hnz] at hM
+  rw [← hM]
+  have hpos : 0 < area2 a b p ∨ 0 < area2 b c p ∨ 0 < area2 c a p := by
+    by_contra hc; push Not at hc; linarith [hc.1, hc.2.1, hc.2.2]
+  simp only [InTri.some.injEq, Bool.not_eq_true', Bool.and_eq_false_iff, decide_eq_false_iff_not, not_or, not_lt]
+  constructor
+  · rintro (h | h)
+    · exact Or.inl h
+    · exfalso; linarith [h.1, h.2.1, h.2.2]
+  · rintro (h | h)
+    · exact Or.inl h
+    · exact absurd hpos (by push Not; exact h)
+
+/-- clockwise triangle: `contains_point` is membership in the **open** triangle (all three cross products strictly
+negative) — every boundary point (vertices, edge points) of a clockwise triangle is reported *outside*, whereas it is
+reported inside for the same triangle listed counter-clockwise.  (Observation about the real code, orientation-dependent
+boundary semantics; the oracle judges `contains_point` off the boundary only.) -/
+theorem tri_contains_point_cw (a b c p : V2 K) (hS : area2 a b c < 0) :
+    letI := fieldNum K sq
+    triContainsPoint a b c p = true ↔ (area2 a b p < 0 ∧ area2 b c p < 0 ∧ area2 c a p < 0) := by
+  rw [tri_contains_point_iff]
+  have hsum : area2 a b p + area2 b c p + area2 c a p = area2 a b c := by simp only [area2]; ring
+  constructor
+  · rintro (h | h)
+    · exfalso; linarith [h.1, h.2.1, h.2.2]
+    · exact h
+  · exact Or.inr
+
+/-- the asymmetry on a concrete input: the vertex `(0,0)` of the unit right triangle is contained when the triangle is
+listed counter-clockwise and not contained when it is listed clockwise -/
+example : letI := fieldNum ℚ (fun x => x)
+    triContainsPoint (⟨0,0⟩ : V2 ℚ) ⟨1,0⟩ ⟨0,1⟩ ⟨0,0⟩ = true ∧ triContainsPoint (⟨0,0⟩ : V2 ℚ) ⟨0,1⟩ ⟨1,0⟩ ⟨0,0⟩ = false := by
+  constructor
+  · rw [tri_contains_point_ccw _ _ _ _ _ (by unfold area2; norm_num)]
+    exact ⟨0, 0, le_refl _, le_refl _, by norm_num, by simp [V2.add, V2.sub, V2.smul]⟩
+  · rw [Bool.eq_false_iff, Ne, tri_contains_point_cw _ _ _ _ _ (by unfold area2; norm_num)]
+    unfold area2; norm_num
 
 /-! ## corollaries: counter-clockwise convex polygons; independence from start vertex and orientation -/
 
@@ -888,6 +976,101 @@ private theorem seg_parallel_branch (a b c d : V2 K) (eps : K) (hpar : crossDir 
   have hl : (0 : K) ≤ ((mkRat 1 4503599627370496 : Rat) : K) := by norm_num
   simp [hl]
 
+/-- **the collinear case table of `segments_intersection2d`** (exact arithmetic, every `a ≠ b`, `eps ≥ 0`).  `c`, `d` are
+the points of parameters `γ ≠ δ` on the line `a b` (`a` ↦ 0, `b` ↦ 1).  The answer — *which* of the six `Segment` shapes of
+`parallel_intersection` is returned, i.e. which slots are `OnVertex(0)` / `OnVertex(1)` and which carry a computed
+location — is determined by the order of the four points along the line:
+
+| order along the line            | answer `Segment{first_loc1, first_loc2, second_loc1, second_loc2}`        |
+|---------------------------------|---------------------------------------------------------------------------|
+| `c, d ∈ [a, b]`                 | `(loc of c on ab, V0, loc of d on ab, V1)`                                |
+| `a, b ∈ [c, d]` (not the above) | `(V0, loc of a on cd, V1, loc of b on cd)`                                |
+| `a, c, b, d` (`0 < γ ≤ 1 < δ`)  | `(loc of c on ab, V0, V1, loc of b on cd)`                                |
+| `d, a, c, b` (`δ < 0 ≤ γ < 1`)  | `(loc of c on ab, V0, V0, loc of a on cd)`                                |
+| `a, d, b, c` (`0 < δ ≤ 1 < γ`)  | `(loc of d on ab, V1, V1, loc of b on cd)`                                |
+| `c, a, d, b` (`γ < 0 ≤ δ < 1`)  | `(loc of d on ab, V1, V0, loc of a on cd)`                                |
+| both beyond the same end        | `None`                                                                    |
+
+and every computed location denotes the point it is named after.  `collinear_table_exhaustive`: the seven rows cover every
+`γ ≠ δ`; both directions of `cd` (`γ < δ`, `γ > δ`) and, through `a ↔ b`, of `ab` are included. -/
+theorem segments_collinear_table (a b : V2 K) (hab : a ≠ b) (γ δ : K) (hγδ : γ ≠ δ) (eps : K) (he : 0 ≤ eps) :
+    letI := fieldNum K sq
+    let c := linePt a b γ
+    let d := linePt a b δ
+    let r := segmentsIntersection2d a b c d eps
+    ((0 ≤ γ ∧ γ ≤ 1) ∧ (0 ≤ δ ∧ δ ≤ 1) →
+      ∃ l1 l2, r = some (.segment l1 (.onVertex 0) l2 (.onVertex 1)) ∧ locPt a b l1 = c ∧ locPt a b l2 = d) ∧
+    (¬ ((0 ≤ γ ∧ γ ≤ 1) ∧ (0 ≤ δ ∧ δ ≤ 1)) ∧ Btw γ δ 0 ∧ Btw γ δ 1 →
+      ∃ l1 l2, r = some (.segment (.onVertex 0) l1 (.onVertex 1) l2) ∧ locPt c d l1 = a ∧ locPt c d l2 = b) ∧
+    (0 < γ ∧ γ ≤ 1 ∧ 1 < δ →
+      ∃ l1 l2, r = some (.segment l1 (.onVertex 0) (.onVertex 1) l2) ∧ locPt a b l1 = c ∧ locPt c d l2 = b) ∧
+    (δ < 0 ∧ 0 ≤ γ ∧ γ < 1 →
+      ∃ l1 l2, r = some (.segment l1 (.onVertex 0) (.onVertex 0) l2) ∧ locPt a b l1 = c ∧ locPt c d l2 = a) ∧
+    (0 < δ ∧ δ ≤ 1 ∧ 1 < γ →
+      ∃ l1 l2, r = some (.segment l1 (.onVertex 1) (.onVertex 1) l2) ∧ locPt a b l1 = d ∧ locPt c d l2 = b) ∧
+    (γ < 0 ∧ 0 ≤ δ ∧ δ < 1 →
+      ∃ l1 l2, r = some (.segment l1 (.onVertex 1) (.onVertex 0) l2) ∧ locPt a b l1 = d ∧ locPt c d l2 = a) ∧
+    ((γ < 0 ∧ δ < 0) ∨ (1 < γ ∧ 1 < δ) → r = none) := by
+  intro c d r
+  have hcd : linePt a b γ ≠ linePt a b δ := fun h => hγδ (linePt_inj hab h)
+  have hpar : crossDir a b (linePt a b γ) (linePt a b δ) = 0 := by simp only [crossDir, linePt]; ring
+  have hr : r = @parallelIntersection K (fieldNum K sq) a b (linePt a b γ) (linePt a b δ) eps :=
+    seg_parallel_branch sq a b _ _ eps hpar
+  have hb1 := between_param sq a b hab γ
+  have hb2 := between_param sq a b hab δ
+  have hb3 := between_param sq (linePt a b γ) (linePt a b δ) hcd ((0 - γ) / (δ - γ))
+  have hb4 := between_param sq (linePt a b γ) (linePt a b δ) hcd ((1 - γ) / (δ - γ))
+  rw [reparam a b γ δ 0 hγδ, sigma_btw γ δ 0 hγδ] at hb3
+  rw [reparam a b γ δ 1 hγδ, sigma_btw γ δ 1 hγδ] at hb4
+  have ha0 : linePt a b 0 = a := by simp [linePt]
+  have hb1' : linePt a b 1 = b := by simp [linePt]
+  rw [ha0] at hb3; rw [hb1'] at hb4
+  have hdeg : @orientation2d K (fieldNum K sq) a b (linePt a b γ) eps = .degenerate := by
+    rw [(orientation2d_spec sq a b (linePt a b γ) eps he).2.2]
+    have : area2 a b (linePt a b γ) = 0 := by simp only [area2, linePt]; ring
+    rw [this, abs_zero]; exact he
+  unfold parallelIntersection at hr
+  rw [hdeg] at hr
+  simp only [ne_eq, not_true_eq_false, if_false] at hr
+  show _ ∧ _
+  simp only [show c = linePt a b γ from rfl, show d = linePt a b δ from rfl]
+  generalize @between K (fieldNum K sq) a b (linePt a b γ) = o1 at hb1 hr
+  generalize @between K (fieldNum K sq) a b (linePt a b δ) = o2 at hb2 hr
+  generalize @between K (fieldNum K sq) (linePt a b γ) (linePt a b δ) a = o3 at hb3 hr
+  generalize @between K (fieldNum K sq) (linePt a b γ) (linePt a b δ) b = o4 at hb4 hr
+  rcases o1 with _ | l1 <;> rcases o2 with _ | l2 <;> rcases o3 with _ | l3 <;> rcases o4 with _ | l4 <;>
+    simp only at hb1 hb2 hb3 hb4 hr <;>
+    refine ⟨?_, ?_, ?_, ?_, ?_, ?_, ?_⟩ <;> intro h <;>
+    first
+      | (exfalso; unfold Btw at *; grind)
+      | exact hr
+      | exact ⟨_, _, hr, hb1.1, hb2.1⟩
+      | exact ⟨_, _, hr, hb3.1, hb4.1⟩
+      | exact ⟨_, _, hr, hb1.1, hb4.1⟩
+      | exact ⟨_, _, hr, hb1.1, hb3.1⟩
+      | exact ⟨_, _, hr, hb2.1, hb4.1⟩
+      | exact ⟨_, _, hr, hb2.1, hb3.1⟩
+
+/-- the seven rows of `segments_collinear_table` cover every pair of distinct parameters -/
+theorem collinear_table_exhaustive (γ δ : K) (h : γ ≠ δ) :
+    ((0 ≤ γ ∧ γ ≤ 1) ∧ (0 ≤ δ ∧ δ ≤ 1)) ∨
+    (¬ ((0 ≤ γ ∧ γ ≤ 1) ∧ (0 ≤ δ ∧ δ ≤ 1)) ∧ Btw γ δ 0 ∧ Btw γ δ 1) ∨
+    (0 < γ ∧ γ ≤ 1 ∧ 1 < δ) ∨ (δ < 0 ∧ 0 ≤ γ ∧ γ < 1) ∨ (0 < δ ∧ δ ≤ 1 ∧ 1 < γ) ∨ (γ < 0 ∧ 0 ≤ δ ∧ δ < 1) ∨
+    ((γ < 0 ∧ δ < 0) ∨ (1 < γ ∧ 1 < δ)) := by
+  unfold Btw
+  rcases lt_trichotomy γ 0 with g0 | g0 | g0 <;> rcases lt_trichotomy γ 1 with g1 | g1 | g1 <;>
+    rcases lt_trichotomy δ 0 with d0 | d0 | d0 <;> rcases lt_trichotomy δ 1 with d1 | d1 | d1 <;>
+    first
+      | (exfalso; linarith)
+      | (exfalso; apply h; linarith)
+      | grind
+
+/-- non-vacuity of the row `a, d, b, c` (the ordering hit by a seeded change): `a = (0,0)`, `b = (2,0)`, `d = (1,0)`,
+`c = (3,0)`, i.e. `γ = 3/2`, `δ = 1/2` -/
+example : (0 : ℚ) < 1/2 ∧ (1/2 : ℚ) ≤ 1 ∧ (1 : ℚ) < 3/2 ∧ linePt (⟨0,0⟩ : V2 ℚ) ⟨2,0⟩ (3/2) = ⟨3,0⟩ ∧
+    linePt (⟨0,0⟩ : V2 ℚ) ⟨2,0⟩ (1/2) = ⟨1,0⟩ := by
+  refine ⟨by norm_num, by norm_num, by norm_num, ?_, ?_⟩ <;> simp [linePt]
+
 /-- **C15, segments, exactly parallel lines** (`(b-a)×(d-c) = 0`, both segments non-degenerate, `eps ≥ 0`), every input:
 * `c` farther than `eps` (in doubled area) from the line `ab` ⇒ `None`, and the segments are indeed disjoint;
 * `c` exactly on the line `ab` (all four points collinear) ⇒ `OverlapSpec`: `None` iff no common point, otherwise
@@ -1134,5 +1317,165 @@ def polygons_intersection_region_full : Prop :=
       (∀ j, j < P.size → ¬ OnSeg (edgeA P j) (edgeB P j) x) → (∀ j, j < Q.size → ¬ OnSeg (edgeA Q j) (edgeB Q j) x) →
       ((splitComponents P Q (polygonsIntersectionOrd order P Q).trace).filter fun C => pointInPoly2d x C).length =
         if pointInPoly2d x P.toList && pointInPoly2d x Q.toList then 1 else 0
+
+
+/-! ## geometry of the emitted items (exact arithmetic) -/
+
+/-- the two edges really cross (`|cross| ≥ eps`, `> 2⁻⁵²`: the non-parallel branch) or are exactly collinear and
+non-degenerate (the tolerance-free domain of the `Segment` answers) -/
+def ExactPair (a b c d : V2 K) (eps : K) : Prop :=
+  (eps ≤ |crossDir a b c d| ∧ (1 / 2 ^ 52 : K) < |crossDir a b c d|) ∨
+  (crossDir a b c d = 0 ∧ area2 a b c = 0 ∧ a ≠ b ∧ c ≠ d)
+
+/-- non-vacuity of `ExactPair`: a proper crossing, and an exactly collinear non-degenerate pair -/
+example : ExactPair (⟨0,0⟩ : V2 ℚ) ⟨2,0⟩ ⟨1,-1⟩ ⟨1,1⟩ (1/1000) ∧ ExactPair (⟨0,0⟩ : V2 ℚ) ⟨2,0⟩ ⟨1,0⟩ ⟨3,0⟩ (1/1000) := by
+  constructor
+  · left; unfold crossDir; norm_num
+  · right; refine ⟨by unfold crossDir; norm_num, by unfold area2; norm_num, by simp, by simp⟩
+
+/-- **soundness of the intersection items of `convex_polygons_intersection_with_tolerances`** (exact arithmetic, every
+input — no convexity or orientation hypothesis —, every `eps ≥ 0`).  Every pair handed to `out` is a vertex item
+(`OnVertex(b)` of an existing vertex of `poly1` resp. `poly2`) or a pair `(Some(loc1), Some(loc2))` attached to an existing
+edge `(a1, b1)` of `poly1` and an existing edge `(a2, b2)` of `poly2` such that — whenever the two edges properly cross or
+are exactly collinear (`ExactPair`; always the case for a `Point` answer) — **both locations denote the same point and
+this point lies on both closed edges**, hence on both boundaries and in both closed polygons.
+Not covered (stated gap): a `Segment` answer for nearly-but-not-exactly parallel edges (`0 < |cross| < eps`), where the
+end points are only within the tolerance; and the claim that the *vertex* items lie inside the other polygon (the
+correctness of the `inflag` bookkeeping of O'Rourke's algorithm, judged by the exact oracle on every generated case). -/
+theorem cvx_items_on_both_boundaries_partial (poly1 poly2 : Array (V2 K)) (eps : K) (he : 0 ≤ eps) :
+    letI := fieldNum K sq
+    ∀ it ∈ convexPolygonsIntersection poly1 poly2 eps,
+      (∃ b, b < poly1.size ∧ it = (some (.onVertex b), none)) ∨
+      (∃ b, b < poly2.size ∧ it = (none, some (.onVertex b))) ∨
+      ∃ a1 b1 a2 b2 l1 l2, IsPolyEdge poly1.size a1 b1 ∧ IsPolyEdge poly2.size a2 b2 ∧ it = (some l1, some l2) ∧
+        (ExactPair (ppt poly1 a1) (ppt poly1 b1) (ppt poly2 a2) (ppt poly2 b2) eps →
+          l1.toPoint poly1 = l2.toPoint poly2 ∧
+          OnSeg (ppt poly1 a1) (ppt poly1 b1) (l1.toPoint poly1) ∧
+          OnSeg (ppt poly2 a2) (ppt poly2 b2) (l1.toPoint poly1)) := by
+  intro it hit
+  rcases @cvx_items_wellformed K (fieldNum K sq) poly1 poly2 eps it hit with
+    ⟨a1, b1, a2, b2, l1, l2, he1, he2, rfl, hcase⟩ | h | h
+  · refine Or.inr (Or.inr ⟨a1, b1, a2, b2, _, _, he1, he2, rfl, ?_⟩)
+    intro hex
+    rw [toPoint_ofSegLoc sq, toPoint_ofSegLoc sq]
+    rcases hcase with hseg | ⟨s1, s2, hseg⟩ | ⟨f1, f2, hseg⟩
+    · obtain ⟨hc1, hc2⟩ := segments_point_nonparallel sq _ _ _ _ _ l1 l2 hseg
+      have hs := segments_nonparallel sq _ _ _ _ _ hc1 hc2
+      rw [hseg] at hs
+      obtain ⟨e1, e2, e3, _⟩ := hs
+      exact ⟨e1, e2, by rw [e1]; exact e3⟩
+    · rcases hex with ⟨hc1, hc2⟩ | ⟨hpar, hcol, hab, hcd⟩
+      · have hs := segments_nonparallel sq _ _ _ _ _ hc1 hc2
+        rw [hseg] at hs; exact absurd hs id
+      · have hs := (segments_parallel sq _ _ _ _ eps he hab hcd hpar).2 hcol
+        rw [hseg] at hs
+        obtain ⟨e1, _, e3, e4, _⟩ := hs
+        exact ⟨e1, e3, e4⟩
+    · rcases hex with ⟨hc1, hc2⟩ | ⟨hpar, hcol, hab, hcd⟩
+      · have hs := segments_nonparallel sq _ _ _ _ _ hc1 hc2
+        rw [hseg] at hs; exact absurd hs id
+      · have hs := (segments_parallel sq _ _ _ _ eps he hab hcd hpar).2 hcol
+        rw [hseg] at hs
+        obtain ⟨_, e2, _, _, e5, e6, _⟩ := hs
+        exact ⟨e2, e5, e6⟩
+  · exact Or.inl h
+  · exact Or.inr (Or.inl h)
+
+/-- **soundness of `convex_polygons_intersection_points_with_tolerances`, point form** (exact arithmetic, `eps ≥ 0`, every
+input): every output point is a vertex of `poly1`, a vertex of `poly2`, or a point attached to an existing edge of each
+polygon which — whenever the two edges properly cross or are exactly collinear — lies on both closed edges.
+Same stated gap as `cvx_items_on_both_boundaries_partial`. -/
+theorem cvx_points_sound_partial (poly1 poly2 : Array (V2 K)) (eps : K) (he : 0 ≤ eps) :
+    letI := fieldNum K sq
+    ∀ pt ∈ convexPolygonsIntersectionPoints poly1 poly2 eps,
+      (∃ b, b < poly1.size ∧ pt = ppt poly1 b) ∨ (∃ b, b < poly2.size ∧ pt = ppt poly2 b) ∨
+      ∃ a1 b1 a2 b2, IsPolyEdge poly1.size a1 b1 ∧ IsPolyEdge poly2.size a2 b2 ∧
+        (ExactPair (ppt poly1 a1) (ppt poly1 b1) (ppt poly2 a2) (ppt poly2 b2) eps →
+          OnSeg (ppt poly1 a1) (ppt poly1 b1) pt ∧ OnSeg (ppt poly2 a2) (ppt poly2 b2) pt) := by
+  intro pt hpt
+  unfold convexPolygonsIntersectionPoints at hpt
+  rw [Array.mem_filterMap] at hpt
+  obtain ⟨it, hit, hf⟩ := hpt
+  rcases cvx_items_on_both_boundaries_partial sq poly1 poly2 eps he it hit with
+    ⟨b, hb, rfl⟩ | ⟨b, hb, rfl⟩ | ⟨a1, b1, a2, b2, l1, l2, he1, he2, rfl, hgeo⟩
+  · simp only [Option.some.injEq] at hf
+    exact Or.inl ⟨b, hb, by rw [← hf]; rfl⟩
+  · simp only [Option.some.injEq] at hf
+    exact Or.inr (Or.inl ⟨b, hb, by rw [← hf]; rfl⟩)
+  · simp only [Option.some.injEq] at hf
+    refine Or.inr (Or.inr ⟨a1, b1, a2, b2, he1, he2, fun hex => ?_⟩)
+    obtain ⟨_, h2, h3⟩ := hgeo hex
+    rw [← hf]; exact ⟨h2, h3⟩
+
+/-- the polygon is convex: every vertex is on the closed left of every directed edge (counter-clockwise) or every vertex
+is on the closed right of every directed edge (clockwise) -/
+def ConvexPoly (poly : List (V2 K)) : Prop :=
+  (∀ e ∈ polyEdges poly, ∀ v ∈ poly, 0 ≤ area2 e.1 e.2 v) ∨ (∀ e ∈ polyEdges poly, ∀ v ∈ poly, area2 e.1 e.2 v ≤ 0)
+
+private theorem area2_onSeg (u v a b p : V2 K) (h : OnSeg a b p) :
+    ∃ t : K, 0 ≤ t ∧ t ≤ 1 ∧ area2 u v p = (1 - t) * area2 u v a + t * area2 u v b := by
+  obtain ⟨t, h0, h1, hx, hy⟩ := h
+  refine ⟨t, h0, h1, ?_⟩
+  unfold area2; rw [hx, hy]; ring
+
+/-- **a point of a closed edge of a convex polygon is in the polygon** (as decided by `point_in_convex_poly2d`): with
+`cvx_items_on_both_boundaries_partial` this gives, for convex inputs of either orientation, that every intersection item
+of `convex_polygons_intersection` is a point of **both** polygons. -/
+theorem onSeg_in_convex (poly : List (V2 K)) (hc : ConvexPoly poly) (a b p : V2 K) (ha : a ∈ poly) (hb : b ∈ poly)
+    (hp : OnSeg a b p) :
+    letI := fieldNum K sq
+    pointInConvexPoly2d p poly = true := by
+  rw [point_in_convex_poly2d_iff]
+  refine ⟨List.ne_nil_of_mem ha, ?_⟩
+  rcases hc with hc | hc
+  · left; intro e he
+    obtain ⟨t, h0, h1, ht⟩ := area2_onSeg e.1 e.2 a b p hp
+    rw [ht]
+    have := hc e he a ha; have := hc e he b hb
+    have : 0 ≤ 1 - t := by linarith
+    positivity
+  · right; intro e he
+    obtain ⟨t, h0, h1, ht⟩ := area2_onSeg e.1 e.2 a b p hp
+    rw [ht]
+    have h2 := hc e he a ha; have h3 := hc e he b hb
+    have h4 : 0 ≤ 1 - t := by linarith
+    nlinarith [mul_nonneg h4 (neg_nonneg.mpr h2), mul_nonneg h0 (neg_nonneg.mpr h3)]
+
+/-- non-vacuity: the unit square is convex, (1/2, 0) is on its first edge -/
+example : ConvexPoly ([⟨0,0⟩, ⟨1,0⟩, ⟨1,1⟩, ⟨0,1⟩] : List (V2 ℚ)) ∧
+    OnSeg (⟨0,0⟩ : V2 ℚ) ⟨1,0⟩ ⟨1/2, 0⟩ := by
+  refine ⟨Or.inl ?_, ⟨1/2, by norm_num, by norm_num, by norm_num, by norm_num⟩⟩
+  intro e he v hv
+  simp only [polyEdges, List.zip, List.zipWith, List.cons_append, List.nil_append, List.mem_cons, List.not_mem_nil,
+    or_false] at he hv
+  rcases he with rfl | rfl | rfl | rfl <;> rcases hv with rfl | rfl | rfl | rfl <;> norm_num [area2]
+
+/-- **soundness of the containment fall-back** (exact arithmetic, `eps ≥ 0`): when the scan of the edges of `polyA`
+against the points of `polyB` succeeds (`ok`), all points of `polyB` are on the closed left side of **every** edge line of
+`polyA` up to the dead-band (`area2 ≥ -eps`), or all are on the closed right side of every edge line (`area2 ≤ eps`) —
+so for a convex `polyA` and `eps = 0` every emitted vertex of `polyB` is a point of `polyA` in the sense of
+`point_in_convex_poly2d_iff`.  (The vertices emitted by the fall-back are exactly those of `polyB`, each once, in input
+order or reversed: `cvx_items_wellformed` + the model.) -/
+theorem convex_fallback_sound (polyA polyB : Array (V2 K)) (eps : K) (he : 0 ≤ eps) :
+    letI := fieldNum K sq
+    containScan polyA polyB eps = true →
+      (∀ a < polyA.size, ∀ p ∈ polyB.toList,
+          -eps ≤ area2 (ppt polyA ((a + polyA.size - 1) % polyA.size)) (ppt polyA a) p) ∨
+      (∀ a < polyA.size, ∀ p ∈ polyB.toList,
+          area2 (ppt polyA ((a + polyA.size - 1) % polyA.size)) (ppt polyA a) p ≤ eps) := by
+  intro h
+  have h' := (@containScan_iff K (fieldNum K sq) polyA polyB eps).mp h
+  by_contra hcon
+  push Not at hcon
+  obtain ⟨⟨a, ha, p, hp, h1⟩, ⟨a', ha', p', hp', h2⟩⟩ := hcon
+  apply h'
+  constructor
+  · refine ⟨a', ha', p', hp', ?_⟩
+    unfold scanOrient
+    rw [(orientation2d_spec sq _ _ _ eps he).1]; exact h2
+  · refine ⟨a, ha, p, hp, ?_⟩
+    unfold scanOrient
+    rw [(orientation2d_spec sq _ _ _ eps he).2.1]; exact h1
+
 
 end C15
